@@ -677,3 +677,154 @@ Example C19_block_search_eq_noncanonical_refuted_nonvacuous :
   (forall b', In b' hist -> index_ok b' = true -> b_height b' = b_height (bnm "007") -> b' = bnm "007") /\
   bvals "a.x" (bnm "007") = ["007"%string] /\ value_as_int "007" = Some 7%Z /\ canon "007" = false.
 Proof. exact block_search_eq_noncanonical_missed_nonvacuous. Qed.
+
+(* ------------------------------------------------------------------ remote subscribers
+   (rpc/core/events.go, finding F90; WsModel.v: the forwarder goroutine between a buffered
+   pub/sub Subscription and the websocket connection's bounded write queue, as repaired by
+   fixes/F90-ws-subscriber-told.diff). *)
+From TM Require Import C19.WsModel C19.WsProofs.
+Local Open Scope nat_scope.
+
+(* 22. For EVERY schedule of publications, pub/sub exit, forwarder steps (both outcomes of the
+   select when a buffered message and the cancellation are ready together), write-queue room,
+   write timeouts and client reads, every queue and buffer capacity and both settings of
+   CloseOnSlowClient: the client never sees a gap or a repetition, and whenever nothing more
+   can happen (its queue is read or its connection closed, the forwarder gone or idle on a live
+   subscription) it holds ALL its matching events, or the explicit cancellation notice, or its
+   connection was closed — never an open connection that stays silent for ever. *)
+Theorem C19_ws_subscriber_told : forall (c : wcfg) (steps : list wstep), repaired c = true ->
+  quiescent (WsModel.run c steps) = true -> observation_ok (WsModel.run c steps).
+Proof. exact ws_subscriber_told. Qed.
+Print Assumptions C19_ws_subscriber_told.
+
+Theorem C19_ws_no_gap : forall (c : wcfg) (steps : list wstep), repaired c = true ->
+  exists j, evs (w_client (WsModel.run c steps)) = seq 0 j /\ (j <= w_pub (WsModel.run c steps))%nat.
+Proof. exact ws_no_gap. Qed.
+Print Assumptions C19_ws_no_gap.
+
+Example C19_ws_subscriber_told_nonvacuous :
+  quiescent (WsModel.run (cfg_rep 1 1 false) (slow_reader ++ [SWrite; SRead])) = true /\
+  w_client (WsModel.run (cfg_rep 1 1 false) (slow_reader ++ [SWrite; SRead])) = [Ev 0; Ev 1; Notice] /\
+  w_pub (WsModel.run (cfg_rep 1 1 false) (slow_reader ++ [SWrite; SRead])) = 4 /\
+  quiescent (WsModel.run (cfg_rep 1 1 false) (slow_reader ++ [STimeout])) = true /\
+  w_open (WsModel.run (cfg_rep 1 1 false) (slow_reader ++ [STimeout])) = false /\
+  w_client (WsModel.run (cfg_rep 1 4 false) stall) = [Ev 0; Notice] /\
+  quiescent (WsModel.run (cfg_rep 1 4 false) stall) = true.
+Proof. vm_compute. repeat split. Qed.
+
+(* F90: the transcription of the unrepaired events.go (notice through TryWriteRPCResponse; an
+   event whose write times out is dropped) leaves the client of the same schedules with a
+   strict prefix, no notice and an open connection for ever — and with a gap. *)
+Example C19_ws_original_refuted :
+  let s := WsModel.run (cfg_orig 1 1 false) slow_reader in
+  quiescent s = true /\ w_client s = [Ev 0; Ev 1] /\ w_pub s = 4 /\ w_open s = true /\
+  w_fw s = FDone /\ ~ observation_ok s /\
+  let g := WsModel.run (cfg_orig 1 4 false) stall in
+  quiescent g = true /\ w_client g = [Ev 0; Ev 2] /\ w_open g = true.
+Proof.
+  cbv zeta. repeat split; try (vm_compute; reflexivity). exact ws_original_not_ok.
+Qed.
+
+(* ------------------------------------------------------------------ the same transaction
+   bytes committed twice (finding F91, known class 91; DupModel.v, DupProofs.v). *)
+From TM Require Import C19.DupModel C19.DupProofs.
+
+(* 23. Theorems 5 and 15 with the premise "transaction bytes pairwise distinct" replaced by the
+   DECIDABLE class test: every history of commits at pairwise distinct (height, index) that is
+   not in known class 91 (two indexed results with equal bytes at different positions). *)
+Theorem C19_tx_search_exact_except_known : forall (h : list iop) (q : query),
+  NoDup (map hpos (history_txs h)) ->
+  dup91 (history_txs h) = false ->
+  (forall t, In t (history_txs h) -> TxDomain t) ->
+  HeightsOK (history_txs h) ->
+  q <> [] ->
+  (forall c, In c q -> wf_cond_rc (history_txs h) c) ->
+  TxRangeShape (history_txs h) q ->
+  exists ids, search (run_history h) q = SOk ids /\
+    forall id, In id ids <->
+      exists t, In t (history_txs h) /\ t_hash t = id /\ matches q (tx_events t) = MTrue.
+Proof. exact tx_search_exact_except_known. Qed.
+Print Assumptions C19_tx_search_exact_except_known.
+
+Theorem C19_indexed_once_except_known : forall h : list iop,
+  NoDup (map hpos (history_txs h)) ->
+  dup91 (history_txs h) = false ->
+  let st := run_history h in
+  NoDup (map fst (s_idx st)) /\ NoDup (map fst (s_prim st)) /\
+  (forall k id, In (k, id) (s_idx st) <->
+     exists t, In t (history_txs h) /\ id = t_hash t /\ In k (keys_of t)) /\
+  (forall id t, get st id = Some t <-> In t (history_txs h) /\ t_hash t = id).
+Proof. exact indexed_once_except_known. Qed.
+Print Assumptions C19_indexed_once_except_known.
+
+Example C19_tx_search_exact_except_known_nonvacuous :
+  NoDup (map hpos (history_txs nv_hist)) /\ dup91 (history_txs nv_hist) = false.
+Proof. exact tx_search_exact_except_known_nonvacuous. Qed.
+
+(* F91, inside the class: "k=v" committed at 5/0 (code 0, transfer.to = alice) and again at 9/0
+   (code 7, transfer.to = nobody) through AddBatch: the record of the first commit is gone, and
+   tx.height = 5, transfer.to = 'alice' and their conjunction return the record of height 9,
+   which satisfies none of them. *)
+Example C19_search_duplicate_bytes_refuted :
+  let st := run_history d91_hist in
+  let q5 := [cnd "tx.height" OpEq (OInt 5)]%string in
+  let qa := [cnd "transfer.to" OpEq (OStr "alice")]%string in
+  NoDup (map hpos (history_txs d91_hist)) /\ dup91 (history_txs d91_hist) = true /\
+  get st "kv"%string = Some d91_t9 /\
+  search st q5 = SOk ["kv"%string] /\ sat q5 d91_t9 = false /\ sat q5 d91_t5 = true /\
+  search st qa = SOk ["kv"%string] /\ sat qa d91_t9 = false /\
+  search st (q5 ++ qa) = SOk ["kv"%string] /\
+  search st [cnd "tx.height" OpGe (OInt 1)]%string = SOk ["kv"%string].
+Proof. exact search_duplicate_bytes_refuted. Qed.
+
+(* ------------------------------------------------------------------ operand types the grammar
+   accepts beyond the modelled ones (finding F92; TypedModel.v: both Search functions as
+   repaired by fixes/F92-search-operand-types.diff). *)
+From TM Require Import C19.TypedModel C19.TypedProofs.
+
+(* 24. On well-typed queries (no float bound; tx.hash with a string operand; "tx.height =" with
+   an integer) the repaired TxIndex.Search IS the Search of SearchModel.v: theorems 6, 14, 15,
+   23 are theorems about the repaired code. *)
+Theorem C19_tx_search_typed_agrees : forall st xq, well_typed xq ->
+  tx_search_typed st xq = search st (map base xq).
+Proof. exact tx_search_typed_agrees. Qed.
+Print Assumptions C19_tx_search_typed_agrees.
+
+(* 25. On EVERY store and EVERY query whose range operands are numbers - integers or floats;
+   any operand whatsoever, EXISTS included, on tx.hash and tx.height - the repaired Search does
+   not panic: it answers or refuses with an error (float bounds, ill-typed tx.hash).  The
+   complement (a TIME / DATE bound mixed with an integer bound) is known class 26 / 36. *)
+Theorem C19_tx_search_never_panics : forall st xq, numeric_ranges xq ->
+  tx_search_typed st xq <> SPanic.
+Proof. exact tx_search_typed_no_panic. Qed.
+Print Assumptions C19_tx_search_never_panics.
+
+Theorem C19_block_search_never_panics : forall st xq, numeric_ranges xq -> contains_strings xq ->
+  block_search_typed st xq <> BPanic.
+Proof. exact block_search_typed_no_panic. Qed.
+Print Assumptions C19_block_search_never_panics.
+
+Example C19_search_typed_nonvacuous :
+  let st := run_history ty_hist in
+  tx_search_typed st [xc "a.x" OpGt (XFloat 1 true)]%string = SErr /\
+  tx_search_typed st [xc "a.x" OpGt (XA (OInt 1)); xc "a.x" OpLe (XFloat 2 true)]%string = SErr /\
+  tx_search_typed st [xc "tx.hash" OpExists (XA ONone)]%string = SErr /\
+  tx_search_typed st [xc "tx.height" OpEq (XA (OStr "1"))]%string = SOk ["0"%string] /\
+  tx_search_typed st [xc "tx.height" OpEq (XFloat 2 false)]%string = SOk ["1"%string] /\
+  tx_search_typed st [xc "a.x" OpGt (XA (OInt 2))]%string = SOk ["1"%string] /\
+  block_search_typed (brun ty_bhist) [xc "a.x" OpGt (XFloat 1 true)]%string = BErr /\
+  block_search_typed (brun ty_bhist) [xc "block.height" OpEq (XFloat 1 false)]%string = BErr /\
+  block_search_typed (brun ty_bhist) [xc "a.x" OpGt (XA (OInt 2))]%string = BOk [2%Z].
+Proof. vm_compute. repeat split. Qed.
+
+(* F92: the transcriptions of the unrepaired Search functions panic on the same conditions *)
+Example C19_search_untyped_refuted :
+  let st := run_history ty_hist in
+  search st (map base [xc "a.x" OpGt (XFloat 1 true)]%string) = SPanic /\
+  search st (map base [xc "tx.hash" OpExists (XA ONone)]%string) = SPanic /\
+  search st (map base [xc "tx.hash" OpEq (XA (OInt 5))]%string) = SPanic /\
+  search st (map base [xc "tx.height" OpEq (XA (OStr "1"))]%string) = SPanic /\
+  bsearch (brun ty_bhist) (map base [xc "a.x" OpGt (XFloat 1 true)]%string) = BPanic /\
+  bsearch (brun ty_bhist)
+    (map base [xc "a.x" OpGt (XA (OInt 1)); xc "a.x" OpLe (XFloat 2 true)]%string) = BPanic.
+Proof. vm_compute. repeat split. Qed.
